@@ -186,6 +186,7 @@ pub trait IRT {
     fn irt_path(&self, fail: bool) -> std::result::Result<u64, ()>;
     fn irt_core_unit(&self, fail: bool) -> core::result::Result<(), ()>;
     fn irt_zst(&self, fail: bool) -> Result<ZDrop, ()>;
+    fn irt_unit_io(&self, code: i32) -> Result<(), std::io::Error>;
 }
 impl IRT for R {
     fn irt_tuple(&self, fail: bool) -> Result<(u32, u64), ()> {
@@ -199,6 +200,9 @@ impl IRT for R {
     }
     fn irt_zst(&self, fail: bool) -> Result<ZDrop, ()> {
         if fail { Err(()) } else { Ok(ZDrop::new()) }
+    }
+    fn irt_unit_io(&self, code: i32) -> Result<(), std::io::Error> {
+        if code == 0 { Ok(()) } else { Err(std::io::Error::from_raw_os_error(code)) }
     }
 }
 
@@ -304,7 +308,16 @@ nd::harnesses! {
         unsafe { Z_MADE = 0; Z_DROPS = 0; }
         let t = trait_obj!(&twin as IRT);
         let vt: &IRTVtbl<_> = t.get_vtbl_base();
-        let (_, cont) = c_view(&t, vt, 0, 4);
+        let (_, cont) = c_view(&t, vt, 0, 5);
+        // a payload-less method keeps its error CODE (every i32)
+        let code: i32 = nd::any();
+        nd::cover!(code > 1, "an error code other than 1");
+        let u = t.irt_unit_io(code);
+        match &u {
+            Ok(()) => assert!(code == 0),
+            Err(e) => assert!(code != 0 && e.raw_os_error() == Some(code), "the error code of a payload-less result survives"),
+        }
+        core::mem::forget(u);
         drive_entry(vt.irt_tuple(), cont, fail, (s32, s64), (k as u32 ^ 3, k ^ 5), true);
         drive_entry(vt.irt_path(), cont, fail, s64, k ^ 17, true);
         drive_entry(vt.irt_core_unit(), cont, fail, (), (), true);
